@@ -30,7 +30,7 @@ func encodeCases(e *Env, t *schema.Type) []ecase {
 	if ctor := bind.Ctors[t.QName]; ctor != nil {
 		cs = append(cs, ecase{"constructor-result", ctor()})
 	}
-	n := e.N(200, 5000)
+	n := e.N(200, 50000)
 	for ci, o := range e.caseOpts(t, n, 2, true, false) {
 		if ci >= n {
 			o.NoNilBody = false
